@@ -389,9 +389,10 @@ Definition spec_listing (a : adb) : listing := listing_of (map spec_day a).
 (* ------------------------------------------------------------------ faults (C05) *)
 (* what the writer does when operation k returns an error *)
 Inductive fclass := FIgnored | FFatal | FAfterCommit.
+(* (a failing ReadDir of the month directory is fatal since the fix "report a failed listing of the month
+   directory": Open returns the error before anything is created) *)
 Definition classify (o : fsop) : fclass :=
   match o with
-  | OOpenR (RMonth _ _ _) => FIgnored             (* genWritePathForTimestamp drops the ReadDir error *)
   | OClose (RMonth _ _ _) => FIgnored             (* ReadDir: deferred Close, error dropped *)
   | OUnlink _ | ORmdir _ => FIgnored              (* deferred Remove of the (already renamed) temp file *)
   | ORenameDir _ _ => FAfterCommit                (* metadata already switched *)
